@@ -16,6 +16,7 @@ def run(ctx):
     import planlevel
     import prune_corr
     concurrent_runs(ctx)
+    forgotten_registry(ctx)
     registry_order(ctx)
     planlevel.plan_campaign(ctx, {"C01"}, n_quick=100, n_thorough=2000)
     engine_corr.campaign(ctx, {"C01"})
@@ -153,3 +154,41 @@ def concurrent_runs(ctx):
                             ctx.fail("concurrent-runs:start-before-dependency", "two threads running one plan at once: in run %d call %s started before its "
                                      "dependencies %r had finished in that run" % (k, nm, [d for d in deps[nm] if d not in ended]), rep)
                             break
+
+
+def forgotten_registry(ctx):
+    """a plan with registry.source nodes run WITHOUT the registry: the source call fails, so nothing that depends on it (argument or
+    add_dependency, directly or not) starts, whatever retry= says"""
+    import datetime as dt
+    uj = core.use_repo()
+
+    class Mem(uj.ValueStore):
+        def read(self):
+            return 1
+
+        def write(self, v):
+            pass
+
+        def get_modified_time(self):
+            return dt.datetime(2020, 1, 1)
+    for retry in (None, 1, 2, 3):
+        for workers in (1, 3):
+            for max_errors in (0, None):
+                started = []
+                plan, reg = uj.Plan(), uj.Registry()
+                s_ = reg.source(plan, Mem())
+                mid = plan.call(lambda v: started.append("mid"), s_)
+                end = plan.call(lambda v: started.append("end"), mid)
+                side = plan.call(lambda: started.append("side"))
+                plan.add_dependency(s_, side)
+                free = plan.call(lambda: started.append("free"))
+                ctx.case(("forgotten-registry", retry, workers, max_errors))
+                try:
+                    res = uj.run(plan, output=[end, side, free], retry=retry, max_workers=workers, max_errors=max_errors, progress=None)
+                    oc = "returned %r" % (res,)
+                except uj.CallError as e:
+                    oc = "callerror"
+                bad = sorted(set(started) - {"free"})
+                if oc != "callerror" or bad:
+                    ctx.fail("forgotten-registry", "a registry.source node run without its registry (retry=%r): run %s; calls that depend on the source started: %r"
+                             % (retry, oc, bad), {"retry": retry, "max_workers": workers, "max_errors": max_errors})
